@@ -1,8 +1,8 @@
 CONSTANTS
   Dev = {}
   L16 = 6
-  L32 = 9
-  L64 = 7
+  L32 = 7
+  L64 = 6
 SPECIFICATION Spec
 INVARIANT ConvEqualsFunction
 INVARIANT SaltEqualsFunction
